@@ -123,6 +123,7 @@ package flate
 //@   ensures[C11 no-demand] !old(f.needInput) && old(f.state.input) == nil && int(old(f.state.bitsLen)/8) <= old(f.rBuf.buffered) ==> extReads == old(extReads)
 //@   ensures[C03 classify] errClass(err)
 //@   ensures[C03 eof-only-final] err == io.EOF ==> f.state.phase == phaseFinish && f.writePos == f.readPos
+//@   ensures[C05 no-over-discard] err == io.EOF && old(f.state.phase) != phaseFinish ==> f.state.input == nil && int(f.state.bitsLen/8) <= f.rBuf.buffered
 //@   ensures[C15 src-err] old(f.state.input) == nil && old(f.state.phase) != phaseFinish && old(f.rBuf.buffered) < int(old(f.state.bitsLen)/8) + (old(f.needInput) ? 1 : 0) && peekErr != nil && peekErr != io.EOF && peekErr != bufio.ErrBufferFull ==> err == peekErr
 //@   ensures[C03 err-no-data] err == io.ErrUnexpectedEOF || iscorrupt(err) || err == nil || f.writePos == f.readPos || err == io.EOF
 
